@@ -1,11 +1,11 @@
 # Claims table (exec'd by gen_manifest.py).
 claim("C01",
       "Bounded symbolic round trip rules->cbe.Encoder->bytes->cbe.Decoder->rules with every payload bit of the templated events symbolic; z3 shows the decoded stream equals the sent one for all values inside the bounds.",
-      "Templates and bounds listed in evidence (coverage.bounds); outside: several symbolic values per slot, deeper nesting, long arrays. Trusted: go/ssa lowering, gosym semantics (self-test), z3.",
+      "Templates: ints (3 forms), floats, typed arrays whole/chunked around the short-form limit, strings/resource ids whole/array/chunked, markers+references, record types+records, nodes, edges, media, custom binary, UID, NaN, decimal floats; positions top/list/key/value. Outside: big.Int/big.Float/apd.Decimal payloads, times, several symbolic values per slot, nesting > 2, long arrays.",
       "DESIGN.md §5 C01")
 claim("C22",
-      "Symbolic execution of the real cbe.Encoder on a fully symbolic 64-bit integer / float bit pattern against a spec-derived size oracle: unsat for all 2^64 values per entry.",
-      "Oracle = CBE size table written from the specification (DESIGN.md A.1). Trusted: go/ssa lowering, gosym semantics (self-test), z3.",
+      "Symbolic execution of the real cbe.Encoder on a fully symbolic 64-bit integer / float bit pattern against a spec-derived size oracle (unsat for all 2^64 values per entry), string and typed-array headers around the short-form limit, and decode-then-encode idempotence on encoder-produced documents with symbolic payloads.",
+      "Oracle = CBE size table written from the specification (DESIGN.md A.1). Idempotence covers 8 document templates; big integers beyond 64 bits and times are not generated.",
       "DESIGN.md §5 C22")
 na("C03", "Both directions pass through the CTE decoder = ANTLR ATN interpreter over symbolic characters (about 40 kLoC generated tables + runtime); token shapes are grammar data, not Go code the engine can execute.")
 na("C06", "Untyped unmarshal is builder.* over reflect.New/MakeSlice/MapOf/SetMapIndex/Append and a reference filler: a reflection-defined heap outside the engine's value model.")
